@@ -183,6 +183,8 @@ def run_case(chk, stream, case):
             authed_now = True
         elif kind in ("connect", "disconnected", "restart"):
             authed_now = False
+            w.inflight = [ui for ui in w.inflight if ui >= len(w.uploads) - sum(1 for o in outs if o.startswith("upload"))]
+            # requests of an earlier connection are never answered by the server
         chk.hit("ev:" + kind)
         # uploads sent by this event
         for n in w.near.sent[nsent:]:
